@@ -207,15 +207,22 @@ func c15Run(rec *vu.Recorder, script []c15Op) {
 			_, mx := c15RL(o.Max)
 			ev["parent"], ev["isParent"], ev["tree"], ev["min"], ev["max"], ev["ns"] = o.Parent, o.IsParent, o.Tree, mn, mx, ns
 			var err error
-			if o.Op == "create" {
-				err = qt.ValidAddQuota(q)
-			} else {
-				old := store[o.Name]
-				if old == nil {
-					old = &v1alpha1.ElasticQuota{}
-					old.Name = o.Name
+			panicked, msg := vu.Protect(func() {
+				if o.Op == "create" {
+					err = qt.ValidAddQuota(q)
+				} else {
+					old := store[o.Name]
+					if old == nil {
+						old = &v1alpha1.ElasticQuota{}
+						old.Name = o.Name
+					}
+					err = qt.ValidUpdateQuota(old.DeepCopy(), q)
 				}
-				err = qt.ValidUpdateQuota(old.DeepCopy(), q)
+			})
+			if panicked { // the webhook itself crashed on the request: recorded, the segment ends here
+				ev["accepted"], ev["panic"] = false, msg
+				rec.Emit(ev)
+				return
 			}
 			ev["accepted"] = err == nil
 			if err == nil {
@@ -274,6 +281,9 @@ func c15Random(rng *rand.Rand, n int) []c15Op {
 	var out []c15Op
 	for i := 0; i < n; i++ {
 		name := names[rng.Intn(len(names))]
+		if rng.Intn(12) == 0 { // the groups koordinator ships with are quota objects like any other for the webhook
+			name = []string{extension.DefaultQuotaName, extension.SystemQuotaName}[rng.Intn(2)]
+		}
 		_, isLive := live[name]
 		k := rng.Intn(10)
 		switch {
@@ -324,6 +334,9 @@ func c15Random(rng *rand.Rand, n int) []c15Op {
 			if len(cands) > 0 && rng.Intn(3) > 0 {
 				parent = cands[rng.Intn(len(cands))]
 			}
+			if rng.Intn(12) == 0 { // any name: itself, a quota that does not exist, a leaf
+				parent = names[rng.Intn(len(names))]
+			}
 			withMem := rng.Intn(4) > 0
 			max := int64(4 + rng.Intn(3)*4)
 			min := int64(rng.Intn(4))
@@ -333,6 +346,9 @@ func c15Random(rng *rand.Rand, n int) []c15Op {
 			o := c15Op{Name: name, Parent: parent, IsParent: rng.Intn(2) == 0, Min: rl(min, min, withMem && rng.Intn(5) > 0), Max: rl(max, max, withMem)}
 			if rng.Intn(5) == 0 {
 				o.Min = rl(-1, -1, false)
+			}
+			if !withMem && rng.Intn(5) == 0 { // min declares a dimension max lacks, with an explicit zero
+				o.Min = rl(min, 0, true)
 			}
 			if rng.Intn(6) == 0 {
 				o.Tree = "t1"
